@@ -1065,6 +1065,75 @@ Proof.
     split; [exact Hs|]. split; [unfold src_dir; rewrite app_assoc; reflexivity | reflexivity].
 Qed.
 
+Lemma map_res_In_conv {A B} (k : A -> res B) l : forall ys x y,
+  map_res k l = Ok ys -> In x l -> k x = Ok y -> In y ys.
+Proof.
+  induction l as [|x0 l IH]; simpl; intros ys x y H Hin Hk; [contradiction|].
+  destruct (k x0) as [y0|] eqn:E; simpl in H; [|discriminate].
+  destruct (map_res k l) as [r'|] eqn:E2; simpl in H; [|discriminate]. inversion H; subst.
+  destruct Hin as [->|Hin]; [left; congruence | right; eapply IH; eauto].
+Qed.
+
+(* the ENTRIES of get_component_files, both components at once *)
+Lemma entries_iff_lemma w suffix l dirs :
+  get_component_files w suffix = Ok l -> get_component_dirs w false = Ok dirs ->
+  forall dp fp, In (dp, fp) l <->
+    (exists d p rel, In d dirs /\ fp = d ++ p /\ public_file (suffix_of suffix) (tree_at (w_root w) d) p /\
+        strip_prefix (w_base w) fp = Some rel /\ contains DOTDOT (module_path None rel) = false /\
+        dp = module_path None rel)
+    \/ (exists s p, In s (app_sources w) /\ fp = src_dir s ++ p /\
+        public_file (suffix_of suffix) (tree_at (w_root w) (src_dir s)) p /\
+        dp = module_path (Some (fst (fst s))) (snd s ++ p)).
+Proof.
+  intros Hl Hd dp fp. apply files_shape in Hl as [dirs' [es1 [Hd' [H1 ->]]]].
+  rewrite Hd in Hd'. inversion Hd'; subst dirs'. rewrite in_app_iff. split.
+  - intros [Hin|Hin].
+    + left. apply In_somes in Hin. destruct (map_res_In _ _ _ _ H1 Hin) as [x [Hx Hk]].
+      apply in_flat_map in Hx as [d [Hdin Hx]]. apply in_files_below in Hx as [p [-> Hp]].
+      unfold dir_entry_of in Hk. destruct (strip_prefix (w_base w) (d ++ p)) as [rel|] eqn:E; [|discriminate].
+      destruct (contains DOTDOT (module_path None rel)) eqn:Ec; inversion Hk; subst.
+      exists d, p, rel. auto 10.
+    + right. apply in_flat_map in Hin as [s [Hs Hin]]. unfold app_entries_of in Hin.
+      apply in_map_iff in Hin as [p [Heq Hp]]. inversion Heq; subst. exists s, p.
+      split; [exact Hs|]. split; [unfold src_dir; rewrite app_assoc; reflexivity|].
+      split; [apply selected_iff_lemma; exact Hp | reflexivity].
+  - intros [[d [p [rel [Hdin [-> [Hp [Hrel [Hc ->]]]]]]]]|[s [p [Hs [-> [Hp ->]]]]]].
+    + left. apply In_somes. eapply map_res_In_conv; [exact H1 | |].
+      * apply in_flat_map. exists d. split; [exact Hdin | apply in_files_below; exists p; auto].
+      * unfold dir_entry_of. rewrite Hrel, Hc. reflexivity.
+    + right. apply in_flat_map. exists s. split; [exact Hs|]. unfold app_entries_of. apply in_map_iff.
+      exists p. split; [unfold src_dir; rewrite <- app_assoc; reflexivity | apply selected_iff_lemma; exact Hp].
+Qed.
+
+(* autodiscover() imports exactly the dot paths of those entries: the selection rule is the ONLY filter, and it
+   looks at the path below the component directory - never at the directories above it or at the app's name *)
+Lemma autodiscover_iff_lemma w names dirs :
+  autodiscover w = Ok names -> get_component_dirs w false = Ok dirs ->
+  forall dp, In dp names <->
+    (exists d p rel, In d dirs /\ public_file PY (tree_at (w_root w) d) p /\
+        strip_prefix (w_base w) (d ++ p) = Some rel /\ contains DOTDOT (module_path None rel) = false /\
+        dp = module_path None rel)
+    \/ (exists s p, In s (app_sources w) /\ public_file PY (tree_at (w_root w) (src_dir s)) p /\
+        dp = module_path (Some (fst (fst s))) (snd s ++ p)).
+Proof.
+  unfold autodiscover. intros Ha Hd dp.
+  destruct (get_component_files w (Some PY)) as [l|e] eqn:El; simpl in Ha; [|discriminate].
+  inversion Ha; subst names. rewrite in_map_iff. split.
+  - intros [[dp' fp] [<- Hin]]. apply (entries_iff_lemma w (Some PY) l dirs El Hd) in Hin.
+    destruct Hin as [[d [p [rel [H1 [-> [H3 [H4 [H5 H6]]]]]]]]|[s [p [H1 [-> [H3 H4]]]]]].
+    + left. exists d, p, rel. auto 10.
+    + right. exists s, p. auto.
+  - intros [[d [p [rel [H1 [H3 [H4 [H5 ->]]]]]]]|[s [p [H1 [H3 ->]]]]].
+    + exists (module_path None rel, d ++ p). split; [reflexivity|].
+      apply (entries_iff_lemma w (Some PY) l dirs El Hd). left. exists d, p, rel. auto 10.
+    + exists (module_path (Some (fst (fst s))) (snd s ++ p), src_dir s ++ p). split; [reflexivity|].
+      apply (entries_iff_lemma w (Some PY) l dirs El Hd). right. exists s, p. auto.
+Qed.
+
+Lemma autodiscover_length_lemma w names l :
+  autodiscover w = Ok names -> get_component_files w (Some PY) = Ok l -> names = map fst l.
+Proof. unfold autodiscover. intros Ha Hl. rewrite Hl in Ha. simpl in Ha. inversion Ha. reflexivity. Qed.
+
 (* ================================================================================== *)
 (* E. the dot path is the import path (against the import-finder model py_find)        *)
 (* ================================================================================== *)
